@@ -336,7 +336,10 @@ func (fx *FnExec) subNonNil(t *Term) {
 	fx.subSeen[t] = true
 	c := fx.c
 	if t.open {
-		return // formed under a quantifier: see interiorAxioms for the symbol-level version
+		// formed under a quantifier: the symbol-level (quantified) version of the same facts
+		fx.subSeen[t] = false
+		fx.interiorAxioms(t.Name, len(t.Args))
+		return
 	}
 	fx.assumeGlobal(c.Not(c.Eq(t, fx.nilRef())))
 	fx.assumeGlobal(c.App("interior", BoolSort, t))
